@@ -125,6 +125,14 @@ def token(text):
             return {"k": "int", "i": v, "s": ""}
         return {"k": "big", "i": 0, "s": t}
     if len(t) >= 2 and t[0] == t[-1] and t[0] in "\"'":
+        # the value of a string literal: escape sequences decoded when the text is a well-formed literal, its raw inside otherwise
+        try:
+            import ast
+            v = ast.literal_eval(t)
+            if isinstance(v, str):
+                return {"k": "str", "i": 0, "s": v}
+        except (ValueError, SyntaxError):
+            pass
         return {"k": "str", "i": 0, "s": t[1:-1]}
     if t in ("True", "true"):
         return {"k": "bool", "i": 1, "s": ""}
